@@ -1228,6 +1228,17 @@ func respPushToNative(p respPush) []any {
 	return out
 }
 
+// isHashable reports whether the value can be used as a Go map key: slices
+// and maps (arrays, maps, sets, pushes, attribute maps, pair lists) cannot,
+// and using one would panic.
+func (rv respValue) isHashable() bool {
+	switch rv.data.(type) {
+	case respArray, respMap, respSet, respAttributeMap, respPairs, respPush:
+		return false
+	}
+	return true
+}
+
 func respNormalizeKey(k respValue) (output respValue) {
 	str, valid := k.toString()
 	if valid {
